@@ -4,6 +4,7 @@ package main
 // regenerated from source on every run (Gen/KernelsSwap.lean).
 
 const (
+	routeGo   = "x/swap/types/route.go"
 	swapInGo  = "x/swap/keeper/keeper_swap_exact_amount_in.go"
 	swapOutGo = "x/swap/keeper/keeper_swap_exact_amount_out.go"
 )
@@ -13,6 +14,8 @@ func init() {
 		name:    "KernelsSwap",
 		imports: []string{"SunriseVerif.Model.Dec"},
 		targets: []target{
+			{kind: "expr", file: routeGo, recv: "Route", name: "InspectRoute", lhs: "amountsExact[i]", lean: "split_share",
+				fields: []field{{"weight", tDec}, {"amountExact", tInt}, {"weightSum", tDec}}},
 			{kind: "expr", file: swapInGo, recv: "Keeper", name: "calculateInterfaceFeeExactAmountIn", lhs: "amountOutNet", lean: "feeIn_amountOutNet",
 				fields: []field{{"amountOutGross", tInt}, {"interfaceFeeRate", tDec}}},
 			{kind: "expr", file: swapInGo, recv: "Keeper", name: "calculateInterfaceFeeExactAmountIn", lhs: "interfaceFee", lean: "feeIn_interfaceFee",
